@@ -224,7 +224,7 @@ pub const TEMPLATES: &[Template] = &[
     name: "no-console-any",
     langs: JS,
     severity: "info",
-    message: "console call",
+    message: "console call\nuse the project logger instead",
     note: "console calls are noisy",
     rule: "  pattern: console.log($$$ARGS)\n",
     valid: &["log(1)"],
@@ -235,7 +235,7 @@ pub const TEMPLATES: &[Template] = &[
     name: "no-debugger",
     langs: JS,
     severity: "error",
-    message: "debugger statement",
+    message: "debugger statement\n  remove it before committing",
     rule: "  kind: debugger_statement\n",
     fix: "",
     valid: &["let a = 1"],
@@ -310,7 +310,7 @@ pub const TEMPLATES: &[Template] = &[
     name: "call-with-number",
     langs: JS,
     severity: "hint",
-    message: "call with a number literal",
+    message: "call with a number literal\n\nname the number",
     rule: "  all:\n  - matches: is-call\n  - has:\n      kind: arguments\n      has:\n        matches: is-num\n",
     utils: &[("is-call", "    kind: call_expression\n"), ("is-num", "    kind: number\n")],
     valid: &["foo(a)"],
@@ -537,6 +537,24 @@ pub const TEMPLATES: &[Template] = &[
     ..T0
   },
   Template {
+    name: "wrap-with-tag",
+    langs: JS,
+    severity: "hint",
+    message: "tag the numbers of $FN with $TAG",
+    rule: "  pattern: $FN($$$ARGS)\n",
+    constraints: &[("FN", "    regex: ^(foo|bar)$\n")],
+    // the rewriter's fix names a variable the enclosing rule only computes by a transformation
+    rewriters: &["- id: tag-num\n  rule:\n    kind: number\n    pattern: $N\n  fix: $TAG($N)\n"],
+    transform: &[
+      ("TAG", "    replace:\n      source: $FN\n      replace: \"^\"\n      by: t_\n"),
+      ("TAGGED", "    rewrite:\n      rewriters: [tag-num]\n      source: $$$ARGS\n      joinBy: \", \"\n"),
+    ],
+    fix: "$FN($TAGGED)",
+    valid: &["baz(1, 2)"],
+    invalid: &["foo(1, 2)", "bar(1, 2)"],
+    ..T0
+  },
+  Template {
     name: "program-without-comment",
     langs: JS,
     severity: "hint",
@@ -738,7 +756,7 @@ pub const TEMPLATES: &[Template] = &[
     name: "html-img",
     langs: &["Html"],
     severity: "warning",
-    message: "image element",
+    message: "image element\nneeds an alt text",
     rule: "  kind: element\n  has:\n    kind: start_tag\n    has:\n      kind: tag_name\n      regex: ^img$\n",
     valid: &["<p>x</p>"],
     invalid: &["<img src=\"a.png\">"],
